@@ -12,7 +12,7 @@ def leafset(maxleaf, dt="int64"):
 def session_consts(**kw):
     c = dict(LeafSet=leafset(3), MaxLen="2", MaxDepth="2", Classes=ALL_CLASSES, OpSet="{}", ValidOnly="TRUE",
              SliceItems="{}", SliceTuples="{}", Axes="{-3,-2,-1,0,1,2,3}", Targets="{0,1,2,3}", CombNs="{0,1,2,3}",
-             ReduceArgs="AllReduceArgs", SortArgs="AllSortArgs", EmitOn="TRUE")
+             ReduceArgs="AllReduceArgs", SortArgs="AllSortArgs", MaxNodes="99", EmitOn="TRUE")
     c.update(kw)
     return c
 
@@ -298,3 +298,31 @@ def run_C15(ctx):
 
 
 RUNNERS["C15"] = run_C15
+
+
+# ------------------------------------------------------------------ C10 (record fields)
+FIELD_TUPLES = ('{<<Field("x")>>, <<Field("y")>>, <<Field("z")>>, <<Field("0")>>, <<Field("1")>>, <<Fields(<<"x">>)>>, '
+                '<<Fields(<<"y","x">>)>>, <<Fields(<<"x","y">>)>>, <<Fields(<<"0">>)>>, <<Fields(<<"1","0">>)>>, <<Fields(<<"x","q">>)>>} \\cup '
+                '{<<a, b>> : a \\in {Field("x"), Field("y"), Fields(<<"y","x">>), Field("1")}, '
+                'b \\in {At(0), At(-1), At(2), Range(1,NoBound,1), Range(NoBound,NoBound,-1), Arr(<<1,0>>)}} \\cup '
+                '{<<b, a>> : a \\in {Field("x"), Field("y"), Fields(<<"y","x">>), Field("1")}, '
+                'b \\in {At(0), At(-1), At(2), Range(1,NoBound,1), Range(NoBound,NoBound,-1), Arr(<<1,0>>)}} \\cup '
+                '{<<b, a, c>> : a \\in {Field("x"), Field("y")}, b \\in {At(0), Range(NoBound,NoBound,1)}, c \\in {At(0), Range(NoBound,1,1)}}')
+
+
+def run_C10(ctx):
+    ctx.build("opt")
+    q = ctx.quick()
+    consts = session_consts(OpSet='{"slice","setfield","aux","tolist"}', LeafSet='{Numpy("int64", [k \\in 1..n |-> k]) : n \\in 2..3}',
+                            Classes='{"ListOffset","IndexedOption","Record","Indexed"}' if q else
+                                    '{"ListOffset","IndexedOption","Record","Indexed","ByteMasked","Regular"}',
+                            MaxLen="2", MaxDepth="3", MaxNodes="4",
+                            SliceTuples="RandomSubset(%d, %s)" % (6 if q else 20, FIELD_TUPLES))
+    ctx.tlc_phase("fields", "Session", consts, invariants=["Refines", "Closed"], constraint="SmallEnough", seed_tlc=True,
+                  require_actions=["SliceOp", "SetFieldOp", "WrapRecord", "ToListOp"])
+    return ctx.finish(assumptions=["ak.zip/unzip/with_field broadcasting are Python-layer functions (L2); here the C++ API below them: "
+                                   "getitem_field(s), field projections inside slices, setitem_field",
+                                   "index-like keys ('0') on named records and projections through unions are Unspec"])
+
+
+RUNNERS["C10"] = run_C10
